@@ -31,10 +31,19 @@ SLOW = {'exactpack.solvers.radshocks.nED_radshocks.Sn_Solver': 35.0, 'exactpack.
 
 
 def recipe(path, u):
+    r = _recipe(path, u)
+    if r is not None and r['kwargs']:
+        allowed = getattr(cat.cls_of(path), 'parameters', {})
+        r['kwargs'] = {k: v for k, v in r['kwargs'].items() if k in allowed}      # the geometry wrappers accept a subset
+    return r
+
+
+def _recipe(path, u):
     """u: list of >= 16 floats in [0,1) (generated) -> dict(kwargs, points (python lists), t, layout, n_min, batch_dependent)
     layout: 'N' 1-D, 'NxD' list of D-tuples, '2xN' two rows"""
     n = lambda i, lo, hi: lo + (hi - lo) * u[i % len(u)]
     N = 1 + int(u[0] * 11.999)
+    nondefault = u[1] >= 0.5          # half of the cases use non-default (generated) parameters where the recipe knows an admissible range
     r = dict(kwargs={}, t=0.5, layout='N', n_min=1, batch_dependent=False, special=None)
     mod = path.rsplit('.', 2)[0]
 
@@ -67,6 +76,8 @@ def recipe(path, u):
         return r
     if '.ehep.' in path:
         r.update(points=radii(0.05, 5.0), t=2.0)
+        if nondefault:
+            r['kwargs'] = dict(D=n(6, 0.5, 1.5), rho_0=n(7, 0.8, 3.0), up=n(8, 0.0, 0.1))
         return r
     if '.ep_piston.' in path:
         r.update(points=radii(0.01, 1.0), t=0.01)      # t <= max(x)/wv_el is demanded by the solver
@@ -91,13 +102,21 @@ def recipe(path, u):
         r.update(layout='NxD', t=0.0)
         rr = radii(3.2, 9.0)
         r['points'] = [[q * math.cos(6 * u[(i + 2) % len(u)]), q * math.sin(6 * u[(i + 2) % len(u)])] for i, q in enumerate(rr)]
+        if path.endswith('.Kenamond1') and nondefault:
+            r['kwargs'] = dict(x_d=(n(6, -2.0, 2.0), n(7, -2.0, 2.0)), D=n(8, 0.5, 3.0), t_d=n(9, -1.0, 2.0))
         return r
     if '.mader.' in path:
         k = max(N, 2)
         r.update(points=sorted(radii(0.0, 5.0, k)), t=6.25e-6, n_min=2, batch_dependent=True)
+        if nondefault:
+            r['kwargs'] = dict(gamma=n(6, 2.0, 3.5), u_piston=n(7, 0.0, 1.0e5))
         return r
     if '.noh2.' in path or '.noh.' in path:
         r.update(points=radii(0.05, 1.0), t=0.5)
+        if nondefault:
+            r['kwargs'] = dict(gamma=n(6, 1.2, 3.0))
+            if path.endswith('.Noh'):
+                r['kwargs'].update(geometry=1 + int(3 * u[7]), rho0=n(8, 0.3, 3.0), u0=-n(9, 0.3, 3.0))
         return r
     if '.nohblackboxeos.' in path:
         r.update(points=radii(0.05, 1.0), t=0.3, special='bbnoh')
@@ -111,22 +130,35 @@ def recipe(path, u):
         return r
     if '.riemann.' in path:
         kw = dict(num_int_pts=401, num_x_pts=801) if path.endswith('GenEOS_Solver') else {}
-        r.update(kwargs=kw, points=radii(0.02, 0.98), t=0.25)
+        if nondefault:
+            v = n(6, -0.3, 0.3)
+            kw.update(rl=n(7, 0.5, 2.0), pl=n(8, 0.8, 2.0), ul=v, ur=v + n(9, -0.3, 0.3), gl=n(10, 1.3, 2.0), gr=n(11, 1.3, 2.0))
+        r.update(kwargs=kw, points=radii(0.02, 0.98), t=0.25 if not nondefault else n(12, 0.05, 0.2))
         return r
     if '.rmtv.' in path:
         r.update(points=radii(0.05, 1.0), t=0.0)
+        if nondefault:
+            r['kwargs'] = dict(rf=n(6, 0.5, 2.0), g0=n(7, 0.5, 2.0))
+            r['points'] = [x * r['kwargs']['rf'] for x in r['points']]
         return r
     if '.sdrz.' in path:
         r.update(points=radii(0.0, 0.5), t=0.5, batch_dependent=False)
         return r
     if '.sedov' in path:
         r.update(points=radii(0.05, 1.2), t=1.0, batch_dependent=True)
+        if nondefault:
+            r['kwargs'] = dict(gamma=n(6, 1.2, 2.5), eblast=n(7, 0.3, 2.0))
+            r['t'] = n(8, 0.5, 1.5)
         return r
     if '.suolson.' in path:
         r.update(points=radii(0.05, 2.0), t=1e-10)
+        if nondefault:
+            r['kwargs'] = dict(opac=n(6, 0.5, 3.0), trad_bc_ev=n(7, 300.0, 2000.0))
         return r
     if '.blake.' in path:
         r.update(points=radii(0.1, 1.0), t=1.6e-4)
+        if nondefault:
+            r['kwargs'] = dict(shear_mod=n(6, 5e9, 5e10), poisson_ratio=n(7, 0.1, 0.4), pressure_scale=n(8, 1e5, 1e7), ref_density=n(9, 1500.0, 5000.0))
         return r
     return None
 
